@@ -101,6 +101,9 @@ func buildSchema(s *schemaDef) (*graphql.Schema, error) {
 			if !ok {
 				return nil, &resolverError{"no outcome"}
 			}
+			if AsyncHook != nil { // C03 only: the answer may go through a promise
+				return AsyncHook(o.resolve())
+			}
 			return o.resolve()
 		}
 	}
@@ -126,6 +129,9 @@ func buildSchema(s *schemaDef) (*graphql.Schema, error) {
 	}
 	if s.mutation != "" {
 		def.Mutation = objs[s.mutation]
+	}
+	if s.subscription != "" { // C03 only
+		def.Subscription = objs[s.subscription]
 	}
 	var names []string
 	for n := range named {
@@ -194,7 +200,7 @@ func schemaSexp(s *schemaDef) sexp.Node {
 		ts = append(ts, sexp.L(sexp.Str(t.name), d))
 	}
 	ins, ads := inputsSexp(s)
-	return sexp.T("schema", sexp.L(ts...), sexp.Str(s.query), opt(s.mutation), sexp.None(), ins, ads)
+	return sexp.T("schema", sexp.L(ts...), sexp.Str(s.query), opt(s.mutation), opt(s.subscription), ins, ads)
 }
 
 func posSexp(n ast.Node) sexp.Node {
